@@ -4,3 +4,4 @@ pub mod engines;
 pub mod fw;
 pub mod iso;
 pub mod par;
+pub mod x2;
